@@ -349,8 +349,8 @@ def part_numexprs(part):
 
 def parts(tier, seed):
     if tier == "quick":
-        ps = [(f"values-{i}", part_values, {"n": 1500}) for i in range(6)]
-        ps += [(f"scalars-{i}", part_scalars, {"n": 3000}) for i in range(4)]
+        ps = [(f"values-{i}", part_values, {"n": 4000}) for i in range(6)]
+        ps += [(f"scalars-{i}", part_scalars, {"n": 8000}) for i in range(4)]
         ps += [(f"orders-{i}", part_all_orders, {"n": 150}) for i in range(2)]
         ps += [("numexprs", part_numexprs, {})]
     else:
